@@ -475,7 +475,11 @@ func contract_MessageInfo_skipField(mi *MessageInfo, b []byte, f *coderFieldInfo
 // (the index stores 32-bit positions). Every occurrence of a lazy field is accounted for in the
 // index whatever the outcome of its validation: one that starts a new run of its field number
 // gets an entry of its own ending at the current position, one that continues a run moves the
-// last entry's end (the two `pos = end` sites).
+// last entry's end (the two `pos = end` sites). A field is left undecoded for later only if its
+// validation found no required field missing or the caller allowed partial messages: the
+// initialization check skips undecoded lazy fields of messages decoded without AllowPartial
+// ("it was checked on unmarshal"), so anything else would make a partial message pass (C10; this
+// obligation failed on the original code: finding F7).
 //
 // @ props C17 C06 C10
 // @ mode int
@@ -488,6 +492,7 @@ func contract_MessageInfo_skipField(mi *MessageInfo, b []byte, f *coderFieldInfo
 // @ site b = b[1:]: 1 <= len(b)
 // @ site b = b[2:]: 2 <= len(b)
 // @ site end := start - len(b): 0 <= pos && pos <= start-len(b) && start-len(b) <= start
+// @ site#1 presence.SetPresentUnatomic(f.presenceIndex, mi.presenceSize): o.initialized || opts.flags&piface.UnmarshalCheckRequired == 0
 // @ site pos = end: imp(lazyDecode && f != nil && f.isLazy && num != lastNum, len(lazyIndex) > 0 && lazyIndex[len(lazyIndex)-1].FieldNum == uint32(num) && lazyIndex[len(lazyIndex)-1].Start == uint32(pos) && lazyIndex[len(lazyIndex)-1].End == uint32(end))
 // @ site pos = end: imp(lazyDecode && f != nil && f.isLazy && num == lastNum && len(lazyIndex) > 0, lazyIndex[len(lazyIndex)-1].End == uint32(end))
 func contract_MessageInfo_unmarshalPointerLazy(mi *MessageInfo, b []byte, p pointer, groupTag protowire.Number, opts unmarshalOptions) (out unmarshalOutput, err error) {
